@@ -526,10 +526,7 @@ func relaxedHasType(t ast.BaseTerm, c ast.Constant, anyMapKey, openStruct bool, 
 		}
 		for _, o := range opt {
 			f := o.(ast.ApplyFn)
-			fields[f.Args[0].(ast.Constant).Symbol] = f.Args[1]
-			if !openStruct {
-				required[f.Args[0].(ast.Constant).Symbol] = true // the library requires optional fields to be present
-			}
+			fields[f.Args[0].(ast.Constant).Symbol] = f.Args[1] // an optional field may be absent, also in the closed reading (F66)
 		}
 		ok := true
 		seen := map[string]bool{}
